@@ -181,7 +181,7 @@ def run_check(mod_name, tier, seed, replay=None):
     total = Acc()
     if hasattr(mod, 'pre_run'):
         mod.pre_run(tier, seed, total)
-    nw = min(NWORKERS, max(1, len(jobs)))
+    nw = min(getattr(mod, 'WORKERS', NWORKERS), NWORKERS, max(1, len(jobs)))
     if nw > 1:
         ctx = mp.get_context('fork')
         with ctx.Pool(nw) as pool:
